@@ -506,7 +506,7 @@ def run(ctx):
     hartley_kernel_check(ctx)
     off = ctx.rng.randrange(len(STRATA))
     for i in range(ctx.n(9, 160)):
-        cases.append(gen_case(ctx.rng, STRATA[(i + off) % len(STRATA)] if i % 4 != 3 else None))
+        cases.append(gen_case(ctx.rng, STRATA[(i + off) % len(STRATA)] if i % 9 != 8 else None))
     reqs, metas = [], []
     for c in cases:
         ctx.stat("model:" + c["kind"])
